@@ -31,6 +31,11 @@ CHECKS: dict[str, dict] = {
         technique="explicit-state model checking of the real stream consumers: invariant (held bytes <= limit+read+separator) checked in every reachable state under all chunkings with reads <= r; safe frames under all chunkings",
         text="For limits, separator lengths and read sizes in the stated sets every chunking of an unterminated payload keeps held bytes within limit+read+separator (a limit error is raised before), and frames safely under the limit are never rejected for size, on both receive paths.",
     ),
+    "C04": dict(
+        cat="model_checking", ref="DESIGN.md §3 C04, §2 E1/E3/E2", engine="E1 world + E3 vblock + E2 vloop",
+        technique="explicit-state exploration of the real send loops on a fake socket: every answer sequence of send()/sendmsg() (all partial sizes, EAGAIN, EINTR, reset) and every unblock delay, states merged on (offered buffers, wire, clock, fault budget), livelock = state repeated without an environment choice; asyncio adapter by deviation-bounded schedule enumeration",
+        text="For all chunk sequences up to the bound (empty chunks everywhere) and all socket answer sequences (no deviation bound on the blocking paths) the bytes on the wire equal the concatenation on success and a prefix of it on TimeoutError/OSError, the call never spins or blocks forever and never exceeds its budget; five blocking send paths plus the asyncio adapter.",
+    ),
 }
 
 NOT_YET: dict[str, str] = {}
@@ -73,6 +78,8 @@ def main() -> None:
         },
         "engines": [
             {"name": "E0 core", "path": "mc/core.py", "serves_properties": props, "kind_free_text": "choice-point explorer (deviation-bounded DFS by re-execution), job runner, evidence/replay/known-findings plumbing"},
+            {"name": "E1 world", "path": "mc/world.py", "serves_properties": ["C03", "C04", "C05", "C10", "C11", "C12", "C14", "C15", "C16", "C17", "C18", "C19", "C20"], "kind_free_text": "virtual clock, pipes, FakeSocket (socket.socket subclass, in-memory I/O whose answers the explorer chooses), VSelector"},
+            {"name": "E2 vloop", "path": "mc/vloop.py", "serves_properties": ["C04", "C10", "C12", "C13", "C14", "C15", "C16", "C17", "C18", "C19", "C20"], "kind_free_text": "the stock asyncio SelectorEventLoop driven by the virtual world"},
             {"name": "E5 chunkmc", "path": "mc/chunkmc.py", "serves_properties": ["C01", "C02", "C03", "C05", "C06", "C07"], "kind_free_text": "explicit-state search over the real stream consumers with canonical heap fingerprints"},
         ],
         "checks": checks,
